@@ -127,6 +127,19 @@ def sim_part(thorough):
     res = par.pmap(_sim_task, tasks, chunksize=2)
     viols = {}
     runs = 0
+    # a master that was started by an upgrade (USR2) and later promoted must leave nothing behind either when it is stopped
+    from props import c14
+    c14.patch_reexec_marker()
+    for bind in ("tcp", "unix"):
+        for script in ([("parent-exit",), ("sig", "TERM")], [("parent-killed",), ("sig", "TERM")], [("parent-exit",), ("tick",), ("sig", "QUIT")], [("sig", "TERM")]):
+            k, o = c14.new_execute({"bind": bind, "daemon": False}, list(script))
+            runs += 1
+            left = {p: d for p, d in k.fs.snapshot().items() if d == b"%d\n" % c14.NEW_PID}
+            if o.end != "exit" or o.code != 0:
+                viols.setdefault("upgraded-master:exit-status", violation("sim:upgraded-master:exit-status", "upgraded master, history %r: %s %r" % (script, o.end, o.code), {"part": "sim-upgraded"}))
+            elif left:
+                viols.setdefault("upgraded-master:pidfile-left", violation("sim:upgraded-master:pidfile-left", "upgraded master (pid %d), history %r: after its exit the pid file(s) %r still name it" % (
+                    c14.NEW_PID, script, sorted(left)), {"part": "sim-upgraded"}))
     for r in res:
         runs += r["runs"]
         for fp, text, script, inj in r["bad"]:
